@@ -221,7 +221,7 @@ func TestC19Structural(t *testing.T) {
 // behaviour: the response-header timeout produces a 504 in time
 
 func TestC19ResponseHeaderTimeout(t *testing.T) {
-	var delay, earlyHints int64
+	var delay, earlyHints, stream int64
 	up := httptest.NewServer(http.HandlerFunc(func(w http.ResponseWriter, r *http.Request) {
 		if atomic.LoadInt64(&earlyHints) != 0 {
 			// an informational response is not the response header the timeout waits for
@@ -235,6 +235,18 @@ func TestC19ResponseHeaderTimeout(t *testing.T) {
 			case <-r.Context().Done():
 				return
 			}
+		}
+		if s := time.Duration(atomic.LoadInt64(&stream)); s > 0 {
+			// the header goes out at once, the body takes its time (a download, an event stream)
+			io.WriteString(w, "upstream-")
+			w.(http.Flusher).Flush()
+			select {
+			case <-time.After(s):
+			case <-r.Context().Done():
+				return
+			}
+			io.WriteString(w, "body")
+			return
 		}
 		io.WriteString(w, "upstream-body")
 	}))
@@ -266,6 +278,13 @@ func TestC19ResponseHeaderTimeout(t *testing.T) {
 			hx.Class("upstream-sends-103-then-the-rest")
 		} else {
 			atomic.StoreInt64(&earlyHints, 0)
+		}
+		// the limit is on the wait for the response header: an upstream that answers in time may take
+		// longer than that (here 2.5-3.5 times the limit) to deliver its body
+		atomic.StoreInt64(&stream, 0)
+		if !slow && method != "HEAD" && rapid.Bool().Draw(t, "body-streams-longer-than-the-limit") {
+			atomic.StoreInt64(&stream, int64(float64(T)*(2.5+float64(rapid.IntRange(0, 10).Draw(t, "stream10"))/10)))
+			hx.Class("prompt-header-then-a-body-that-streams-longer-than-the-limit")
 		}
 		var pcfg config.Proxy
 		if rapid.Bool().Draw(t, "gzip-configured") {
